@@ -66,6 +66,14 @@ pub fn build_pass_1(
     })
 }
 
+/// Move address forward with check of overflow
+fn advance(address: u32, size: u64, line: &CodePoint) -> Result<u32, Error> {
+    match (address as u64).checked_add(size) {
+        Some(address) if address <= std::u32::MAX as u64 => Ok(address as u32),
+        _ => bail!("address is out of range, {}", line),
+    }
+}
+
 fn pass_1_internal(
     segment: &Segment,
     address: u32,
@@ -93,7 +101,7 @@ fn pass_1_internal(
             }
             Item::Instruction(op, _) => match segment.t {
                 SegmentType::Code => {
-                    cur_address += op.info(common_context).len;
+                    cur_address = advance(cur_address, op.info(common_context).len as u64, line)?;
                     out_items.push((*line, item.clone()));
                 }
                 _ => bail!(
@@ -109,7 +117,7 @@ fn pass_1_internal(
                 DataDefine::Db => {
                     let mut items = items.clone();
 
-                    cur_address += match segment.t {
+                    let size = match segment.t {
                         SegmentType::Code => {
                             (if items.actual_len() % 2 == 1 {
                                 items.push(Operand::E(Expr::Const(0x0)));
@@ -122,6 +130,7 @@ fn pass_1_internal(
                         SegmentType::Eeprom => items.actual_len() as u32,
                         _ => bail!(".db are not allowed in data segment, {}", line),
                     };
+                    cur_address = advance(cur_address, size as u64, line)?;
 
                     out_items.push((*line, Item::Data(DataDefine::Db, items)));
                 }
@@ -132,18 +141,22 @@ fn pass_1_internal(
                         DataDefine::Dq => 8,
                         _ => 0,
                     };
-                    cur_address += match segment.t {
+                    let size = match segment.t {
                         SegmentType::Code => items.len() as u32 * (item_size / 2),
                         SegmentType::Eeprom => items.len() as u32 * item_size,
                         _ => bail!(".dw are not allowed in data segment, {}", line),
                     };
+                    cur_address = advance(cur_address, size as u64, line)?;
 
                     out_items.push((*line, item.clone()));
                 }
             },
             Item::ReserveData(size) => match segment.t {
                 SegmentType::Data | SegmentType::Eeprom => {
-                    cur_address += *size as u32;
+                    if *size < 0 {
+                        bail!(".byte with negative size {}, {}", size, line);
+                    }
+                    cur_address = advance(cur_address, *size as u64, line)?;
                     if segment.t == SegmentType::Eeprom {
                         out_items.push((*line, item.clone()));
                     }
